@@ -36,6 +36,7 @@ def jobs(ctx):
     out = []
     pre = [(r'_ptr->IncRef\(\)', 'IncRef(self->_ptr)', 0), (r'_ptr->DecRef\(\)', 'DecRef(self->_ptr)', 0), (r'other\._ptr\b', 'other->_ptr', 0),
            (r'IntrusivePtr\{\s*other\s*\}\.Swap\(\s*\*this\s*\)\s*;', '{ Ptr vf_tmp; CtorRaw(&vf_tmp, other); Swap(&vf_tmp, self); Dtor(&vf_tmp); }', 0),
+           (r'IntrusivePtr\{\s*std::move\(\s*other\s*\)\s*\}\.Swap\(\s*\*this\s*\)\s*;', '{ Ptr vf_tmp; CtorMove(&vf_tmp, other); Swap(&vf_tmp, self); Dtor(&vf_tmp); }', 0),
            (r'return\s+\*this\s*;', 'return;', 0), (r'return\s+operator=\(\s*other->_ptr\s*\)\s*;', '{ AssignRaw(self, other->_ptr); return; }', 0), (r'\bSwap\(\s*other\s*\)\s*;', 'Swap(self, other);', 0)]
 
     def rw(name, text):
@@ -116,6 +117,7 @@ void h8(void) { ghost_reset(); Ptr* p; Obj* o; ResetNoRef(p, o); VF_CANARY("end"
     STUBS = '''void CtorRaw(Ptr* self, Obj* other) __CPROVER_assigns(self->_ptr, g_incs, g_inc_of, g_t_inc, g_clock) __CPROVER_ensures(self->_ptr == other && g_incs == OLD(g_incs) + (other != 0 ? 1 : 0) && (other != 0 ==> (g_inc_of == other && g_t_inc == OLD(g_clock) && g_clock == OLD(g_clock) + 1)) && (other == 0 ==> g_clock == OLD(g_clock)));
 void Dtor(Ptr* self) __CPROVER_assigns(g_decs, g_dec_of, g_t_dec, g_clock) __CPROVER_ensures(g_decs == OLD(g_decs) + (self->_ptr != 0 ? 1 : 0) && (self->_ptr != 0 ==> (g_dec_of == self->_ptr && g_t_dec == OLD(g_clock) && g_clock == OLD(g_clock) + 1)));
 void Swap(Ptr* self, Ptr* other) __CPROVER_assigns(self->_ptr, other->_ptr) __CPROVER_ensures(self->_ptr == OLD(other->_ptr) && other->_ptr == OLD(self->_ptr));
+void CtorMove(Ptr* self, Ptr* other) __CPROVER_assigns(self->_ptr, other->_ptr) __CPROVER_ensures(self->_ptr == OLD(other->_ptr) && other->_ptr == 0);
 '''
     src2 = COMMON + STUBS + '''void AssignRaw(Ptr* self, Obj* other) __CPROVER_requires(''' + FR + ''') __CPROVER_assigns(self->_ptr, g_incs, g_inc_of, g_t_inc, g_decs, g_dec_of, g_t_dec, g_clock)
 /* p = raw: afterwards p stands for one reference on `other`; the new reference is taken BEFORE the old one is given back (safe when both name the same object through different paths);
@@ -139,6 +141,6 @@ void h2(void) { ghost_reset(); Ptr* p; Ptr* q; AssignMove(p, q); VF_CANARY("end"
 void h3(void) { ghost_reset(); Ptr* p; Ptr* q; AssignCopy(p, q); VF_CANARY("end"); }
 '''
     job('assign.raw', b_ar, 'AssignRaw', 'h1', ['CtorRaw', 'Dtor', 'Swap', 'IncRef', 'DecRef'], canaries=2, source=src2)
-    job('assign.move', b_am, 'AssignMove', 'h2', ['Swap'], source=src2)
+    job('assign.move', b_am, 'AssignMove', 'h2', ['Swap', 'CtorMove', 'Dtor', 'CtorRaw', 'IncRef', 'DecRef'], source=src2)
     job('assign.copy', b_ac, 'AssignCopy', 'h3', ['AssignRawS'], source=src2)
     return out
